@@ -27,6 +27,8 @@ var c13PrefixItems = []string{
 	"\\{{ x }}\n",
 	"@each(w in [1,\n2])z\n@end",
 	"{{ 'r\n\ns' }}\n",
+	"{{ \"p\\\nq\" }}",   // a backslash directly before the line feed inside a string
+	"{{ \"a\\\"\nb\" }}", // an escaped quote, then a line feed
 }
 
 type c13Fault struct {
@@ -115,6 +117,14 @@ func c13Check(cs c13Case) (ok bool, sig, expected, observed string) {
 			t.Files["index.tw"] = `@use("lay")` + "\n@insert(\"a\")\n" + src + "@end"
 			line += 2
 			wantPath = t.abs("index.tw")
+		case 5:
+			// the fault is the expression argument of an insert of a page that uses a layout
+			expr := strings.TrimSuffix(strings.TrimPrefix(f.src, "{{ "), " }}")
+			pre := src[:strings.Index(src, f.src)]
+			t.Files["lay.tw"] = "<l>\n@reserve(\"a\")\n@reserve(\"b\")</l>"
+			t.Files["index.tw"] = `@use("lay")` + "\n@insert(\"b\")B@end" + pre + `@insert("a", ` + expr + ")\ntail"
+			line = 2 + strings.Count(pre, "\n")
+			wantPath = t.abs("index.tw")
 		}
 		_ = faultFile
 		t.write()
@@ -130,7 +140,7 @@ func c13Check(cs c13Case) (ok bool, sig, expected, observed string) {
 		expected += " and path " + wantPath
 	}
 	expected += " for " + f.name + " in " + strconvQuote(src)
-	where := []string{"string", "page", "layout", "component", "page-with-layout"}[cs.Where]
+	where := []string{"string", "page", "layout", "component", "page-with-layout", "insert-argument"}[cs.Where]
 	if o.Kind == KPanic || o.Kind == KHang {
 		return false, o.Kind + "@" + o.Site, expected, o.String()
 	}
@@ -169,7 +179,10 @@ func c13Run(c *Ctx) {
 			pre := append([]int{}, idx...)
 			for fi, f := range c13Faults {
 				for wrap := 0; wrap < 4; wrap++ {
-					for where := 0; where < 5; where++ {
+					for where := 0; where < 6; where++ {
+						if where == 5 && (wrap != 0 || f.load || !strings.HasPrefix(f.src, "{{ ") || f.extra != 0) {
+							continue
+						}
 						if f.tree != "" && where != 1 {
 							continue
 						}
